@@ -73,6 +73,7 @@ PEER_CLOSES = {
     "badutf8cut": ("badutf8", struct.pack("!H", 3000) + b"ab\xe2\x82"),
     "badutf8sur": ("badutf8", struct.pack("!H", 1000) + b"\xed\xa0\x80"),
     "len1": ("len1", b"\x03"),
+    "big126": ("oversize", struct.pack("!H", 1000) + b"r" * 124),     # control frame with a 126-byte payload
 }
 
 
@@ -218,8 +219,8 @@ class Mon:
             R.count("wasclean_true_grey_sync_queue")
             return
         if self.close_written < 1 or not delivered:
-            which = ("no-close-frame-sent" if self.close_written < 1 else "") + \
-                    ("no-close-frame-received" if not delivered else "")
+            which = "+".join(x for x in ("no-close-frame-sent" if self.close_written < 1 else "",
+                                         "no-close-frame-received" if not delivered else "") if x)
             self.violation("wasClean/%s" % which,
                            "onClose(wasClean=True, %r, %r) but close frames did not travel in both directions "
                            "(close frames written by the endpoint: %d, peer close frames delivered to it: %d)" % (
@@ -365,6 +366,7 @@ class Mon:
         return ref.encode_frame(op, payload, **kw)
 
     def feed(self, data, site):
+        """Feed peer octets under the case's segmentation; returns the number of octets actually delivered."""
         self.site = site
         seg = self.case.get("seg", "whole")
         if seg == "bytewise":
@@ -374,12 +376,14 @@ class Mon:
             chunks = [data[:c], data[c:]]
         else:
             chunks = [data]
+        fed = 0
         for c in chunks:
             if not self.deliverable():
-                return False
+                break
             self.ep.feed(c)
             self.world.settle()
-        return True
+            fed += len(c)
+        return fed
 
     def feed_frames(self, specs):
         """specs: list of ('close', kind) | ('raw', bytes) fed as ONE write of the peer."""
@@ -391,15 +395,15 @@ class Mon:
                 cls, payload = PEER_CLOSES[s[1]]
                 data += self.pframe(ref.OP_CLOSE, payload)
                 closes.append({"kind": s[1], "cls": cls, "payload": payload, "our_closes_before": self.close_written,
-                               "state_before": self.cur_state, "vt": self.now()})
+                               "state_before": self.cur_state, "vt": self.now(), "end": len(data)})
             else:
                 data += s[1]
         if not self.hs_done or not self.opened:
             closes = []
-        ok = self.feed(data, "peer-close" if closes else "peer-frames")
-        if ok:
-            self.peer_closes.extend(closes)
-            for c in closes:
+        fed = self.feed(data, "peer-close" if closes else "peer-frames")
+        for c in closes:
+            if c["end"] <= fed:      # the whole close frame reached the endpoint while its transport was reading
+                self.peer_closes.append(c)
                 self.R.seen("peer_close_kinds_delivered", "%s/%s" % (c["kind"], _state_name(c["state_before"])))
 
     # ---- events -----------------------------------------------------------------------------------
@@ -500,8 +504,8 @@ class Mon:
             d = ref.encode_frame(ref.OP_TEXT, b"xx", mask=None if self.role == "server" else PEER_MASK)
         elif kind == "fragctl":
             d = self.pframe(ref.OP_PING, b"", fin=False)
-        elif kind == "bigctl":
-            d = self.pframe(ref.OP_CLOSE, struct.pack("!H", 1000) + b"r" * 124)
+        elif kind == "bigping":
+            d = self.pframe(ref.OP_PING, b"p" * 126)
         elif kind == "ctlopcode":
             d = self.pframe(11, b"")
         else:
@@ -572,7 +576,11 @@ class Mon:
         R = self.R
         t0 = self.closing_t0
         pcs = self.peer_closes
-        replied_valid = any(p["cls"] in ("valid", "empty", "grey") and p["our_closes_before"] == 0 for p in pcs)
+        if any(p["cls"] == "grey" and p["our_closes_before"] == 0 for p in pcs):
+            # 1012-1014: whether the endpoint must treat the frame as a close or as a violation is open -> no deadline asserted
+            R.count("bounded_skipped_grey_peer_code")
+            return
+        replied_valid = any(p["cls"] in ("valid", "empty") and p["our_closes_before"] == 0 for p in pcs)
         any_peer_close = bool(pcs)
         applicable = []
         if not replied_valid:
